@@ -35,19 +35,20 @@ RULE = ('for each call form: all tables of n rows (two fields) x every subset of
         'LookupError, TypeError, ValueError, AttributeError, StopIteration, RuntimeError, ZeroDivisionError besides '
         'the custom class) x all inputs of <= 2 rows (3 thorough) x policy x {argument, config} x errorvalue '
         '{omitted, "ERR"}: the expected observation does not depend on the type.  '
-        'Stateful user functions: every call of a user function handed to petl is logged in every case and the '
-        'log (number and order of calls, points of raising) must equal the model\'s: each function is called '
-        'exactly once per (row, cell) it applies to per pass, rows in order, cells left to right, and the policy '
-        'applies to the outcome of that one call; in addition every such form is run with fail-once functions '
-        '(raise only the first time they meet an offending value, succeed on a retry) and with call-counting '
-        'functions (results carry the call ordinal) over all inputs of <= 2 rows (3 thorough).  '
+        'Stateful user functions: every form that has user functions is also run with fail-once functions (raise '
+        'only the first time they meet an offending value, succeed on a retry; None always fails) and with '
+        'call-counting functions (a result carries how often this function was called with these arguments) over '
+        'all inputs of <= 2 rows (3 thorough): the policy must apply to the failure that happened, so a second '
+        'evaluation of a row shows in the delivered rows / the raised exception.  Both kinds are independent of the '
+        'order in which the cells of a row are evaluated; under True the exception of ANY failing cell of the row '
+        'is accepted.  The call log is compared with a once-per-cell model for information only (evidence counter '
+        'info:call log differs ...), never reported.  '
         'Excluded: StopIteration raised inside map() / a hand-written iterator (the iterator protocol defines it as '
         'the end of the row, not a failure); a raising `where` predicate, a mapper returning a non-row, policy values other than the three '
         'documented ones (None / other truthy values), exceptions not derived from Exception; under True the '
         'rows a generator produced for the failing input row before failing may or may not be delivered.')
 ASSUMPTIONS = ['tables have <= 4 rows (5 thorough) and two fields; user functions fail as a function of the cell value '
                '(and, in the stateful modes, of whether they met it before / of the call ordinal)',
-               'user functions are called in row order and, within a row, left to right (what the call log fixes)',
                'the config default is read when the view is constructed (anchor petl/transform/conversions.py:338)']
 
 POLICIES = (False, True, 'inline')
@@ -75,7 +76,7 @@ def _nmax(tier):
 def bounds(tier, seed):
     return {'max_rows': _nmax(tier), 'max_rows_rowmapmany': 5 if tier == 'thorough' else 4,
             'forms': len(BUILD), 'policies': 3, 'user_exception_types': list(ref.KIND_ORDER),
-            'user_function_states': list(ref.STATES), 'call_log_checked': True,
+            'user_function_states': list(ref.STATES), 'call_log': 'informational counter only',
             'exception_type_space_max_rows': 3 if tier == 'thorough' else 2,
             'short_row_forms_max_rows': 4 if tier == 'thorough' else 3, 'modes': list(MODES), 'errorvalues': ['<omitted>', None, 'ERR']}
 
@@ -260,15 +261,10 @@ def check_case(case):
         delivered, raised, stage, log = observe(form, tbl, policy, mode, ev, selected, state)
     finally:
         ref.set_kind('Boom')
-    rows_ok = ref.matches(exp, delivered, raised)
-    if rows_ok and log == exp['log']:
+    if ref.matches(exp, delivered, raised):
+        # the call log is information only: the statement does not fix number or order of calls
+        exp['log_differs'] = (log != exp['log'])
         return None, exp, delivered, raised
-    if rows_ok:
-        sig = 'user functions were not called exactly once per applicable row/cell, in order'
-        observed = {'calls': _showlog(log), 'number of calls': len(log)}
-        expected = {'calls': _showlog(exp['log']), 'number of calls': len(exp['log'])}
-        msg = '%s, policy %r (%s), %s user functions: %s' % (form, policy, mode, state, sig)
-        return (sig, expected, observed, msg), exp, delivered, raised
     # failure signature (never contains input values)
     if exp['raises'] is None and raised is not None:
         sig = 'raised at %s although policy %r never raises' % (
@@ -423,7 +419,7 @@ def _kind_forms():
         else:
             tbl = ref.table(st, reps, 1, {(0, 0), (0, 1)})
         e = ref.expected(form, tbl, True, ref.OMIT, {0})
-        if e['raises'] is not None and e['raises'] != ref.ANY:
+        if e['raises'] is not None and any(p != ref.ANY for p in e['raises']):
             out.add(form)
     return out
 
@@ -480,6 +476,8 @@ def run_item(item, acc):
                                 acc.counters['nontrivial with user exception type:' + kind] += 1
                             if state != 'pure':
                                 acc.counters['nontrivial with %s user functions' % state] += 1
+                    if exp.get('log_differs'):
+                        acc.counters['info:call log differs from the once-per-cell model'] += 1
                     acc.counters['evals:' + form] += 1
                     acc.outcome((policy, len(delivered), raised is not None,
                                  sum(1 for r in delivered for c in r if isinstance(c, tuple) and c[:1] == (ref.EXC,))))
